@@ -46,6 +46,7 @@ type ViolationOut struct {
 	ObsTyped map[string]interface{} `json:"observed,omitempty"`
 	Blocked []string `json:"blocked,omitempty"`
 	Sig string `json:"signature"`
+	Gates []string `json:"gates,omitempty"`
 }
 
 func outViolation(v *Violation) *ViolationOut {
@@ -53,7 +54,7 @@ func outViolation(v *Violation) *ViolationOut {
 		return nil
 	}
 	return &ViolationOut{Kind: v.Kind, Label: v.Label, Site: v.Site, Model: v.Model, Tags: v.Tags, Obs: v.Obs, Trace: v.Trace,
-		Values: v.ModelTyped, ObsTyped: v.ObsTyped, Blocked: v.Blocked, Sig: v.Signature()}
+		Values: v.ModelTyped, ObsTyped: v.ObsTyped, Blocked: v.Blocked, Sig: v.Signature(), Gates: v.Gates}
 }
 
 // InitList is the set of packages whose globals are allocated and whose init functions run.
